@@ -10,7 +10,8 @@ Extracted from the live source on every run:
     expression in f_arr[k] (k in 0,1,2,-3,-2,-1) and pad_const with rational coefficients;
   * what each operator class's `.adjoint` / `.derivative` build (adjSpec / derivSpec): the
     `return [-]Cls(…)` expressions, arguments bound against the constructor signature.
-  * the one `for axis in range(ndim)` loop of Gradient/Divergence/Laplacian._call (accProg).
+  * the one `for axis in range(ndim)` loop of Gradient/Divergence/Laplacian._call (accProg);
+  * the epilogue scaling `out /= dx` of finite_diff (dxScale).
 The grammar is deliberately tiny.  Anything outside it raises ExtractionError, which the
 check treats as a broken obligation (then searches the real code), never as a pass.
 """
@@ -555,6 +556,35 @@ def _loop_prog(cls, node):
     return loops[0], dict(perAxis=False, steps=steps)
 
 
+EPI_MARK = '<epilogue scaling by a power of dx: regenerated (dxScale)>'
+
+
+def _epilogue_scale(st):
+    """the ONE statement between the boundary tree and `return out_in`:
+    `out /= E` or `out *= E` with E = dx | dx ** k | dx * dx | 1 / dx | 1.0 / dx
+    -> (divide?, k): out is divided (True) / multiplied (False) by dx ** k, k >= 0."""
+    if not isinstance(st, ast.AugAssign) or _u(st.target) != 'out' or \
+            not isinstance(st.op, (ast.Div, ast.Mult)):
+        raise ExtractionError('epilogue of finite_diff is not `out /= …` / `out *= …`: ' + _u(st))
+    e = _u(st.value)
+    if e == 'dx':
+        k = 1
+    elif e == 'dx * dx':
+        k = 2
+    elif e in ('1 / dx', '1.0 / dx'):
+        k = -1
+    elif isinstance(st.value, ast.BinOp) and isinstance(st.value.op, ast.Pow) and \
+            _u(st.value.left) == 'dx' and isinstance(st.value.right, ast.Constant) and \
+            isinstance(st.value.right.value, int) and 0 <= st.value.right.value <= 4:
+        k = st.value.right.value
+    else:
+        raise ExtractionError('epilogue of finite_diff scales by something outside the grammar: '
+                              + e)
+    if isinstance(st.op, ast.Mult):
+        k = -k
+    return (k >= 0, abs(k))
+
+
 def _class_pins(cls, classes=None):
     """Normalised text of __init__, _call, adjoint, derivative of one operator class, with the
     two data-shaped parts taken OUT of the text and returned as flags:
@@ -650,6 +680,8 @@ def current_pins(tree):
                 keep.append('<interior: regenerated>')
         elif _chain_var(st) == 'pad_mode' and region is not None and i == region[1]:
             keep.append('<chain on pad_mode: regenerated>')
+        elif region is not None and i == region[1] + 1 and isinstance(st, ast.AugAssign):
+            keep.append(EPI_MARK)
         elif isinstance(st, ast.If) and 'f_arr.shape[axis] <' in _u(st.test):
             keep.append('<size guard: regenerated>')
         else:
@@ -833,9 +865,11 @@ def extract_data(repo=None):
     region = _interior_region(body)
     if region is None:
         raise ExtractionError('axis swap followed by the boundary chain on `pad_mode` not found')
-    post = [_u(s) for s in body[region[1] + 1:]]
-    if post != ['out /= dx', 'return out_in']:
-        raise ExtractionError('statements after the boundary tree changed: ' + repr(post))
+    post = body[region[1] + 1:]
+    if len(post) != 2 or _u(post[1]) != 'return out_in':
+        raise ExtractionError('statements after the boundary tree changed: ' +
+                              repr([_u(s) for s in post]))
+    dx_scale = _epilogue_scale(post[0])
     # nothing before the swap may write into an array
     for st in body[:region[0] - 2]:
         for sub in ast.walk(st):
@@ -880,6 +914,7 @@ def extract_data(repo=None):
     den = lcm(2, *dens)
     return dict(methods=methods, pads=pads, adj_m=adj_m, adj_p=adj_p, guards=guards, bands=bands,
                 leaves=leaves, den=den, lap_rejected=lap_rejected, flags=flags,
+                dx_scale=dx_scale,
                 partial=partial, sources=sources)
 
 
@@ -905,6 +940,10 @@ def render(d):
          '',
          '/-- common denominator of all stencil coefficients -/',
          'def den : Nat := {}'.format(den),
+         '/-- epilogue of `finite_diff` (`out /= dx`): (divide?, k) = out is divided (true) /',
+         'multiplied (false) by `dx ^ k` -/',
+         'def dxScale : Bool × Nat := ({}, {})'.format('true' if d['dx_scale'][0] else 'false',
+                                                     d['dx_scale'][1]),
          '/-- `_SUPPORTED_DIFF_METHODS` -/',
          'def methods : List Method := [{}]'.format(', '.join('.' + METHODS[m] for m in d['methods'])),
          '/-- `_SUPPORTED_PAD_MODES` -/',
